@@ -34,6 +34,31 @@ def dict_val(d):
     return [m, out]
 
 
+def _normdict(d):
+    """chain dict with daughters sorted (names before sub-dicts compare by their mother name)"""
+    (m, modes), = d.items()
+    out = []
+    for md in modes:
+        fs = sorted([x if isinstance(x, str) else _normdict(x) for x in md["fs"]], key=lambda x: (x if isinstance(x, str) else next(iter(x)), not isinstance(x, str)))
+        o = dict(md)
+        o["fs"] = fs
+        if isinstance(o.get("model_params"), list) and not o["model_params"]:
+            o["model_params"] = []
+        out.append(o)
+    return {m: out}
+
+
+def dict_val_f(d):
+    from vlib import fl
+    (m, modes), = d.items()
+    out = []
+    for md in modes:
+        fs = [x if isinstance(x, str) else dict_val_f(x) for x in md["fs"]]
+        meta = [[k, [fl(y) if isinstance(y, float) else y for y in v] if isinstance(v, list) else v] for k, v in md.items() if k not in ("bf", "fs")]
+        out.append([fl(md["bf"]), fs, meta])
+    return [m, out]
+
+
 def build_dict(t):
     """case encoding of a chain dict: [mother, [[bf, fs, info], ...]] -> python dict"""
     m, modes = t
@@ -103,6 +128,20 @@ def impl_main(mode, fin, fout):
                             if m.bf != o.bf or m.daughters != o.daughters or dict(m.metadata) != meta:
                                 viol.append("chain round trip loses information")
                                 break
+            elif k == "parser":
+                import c09
+                pp = c09.parse_text(c["text"])
+                d = pp.build_decay_chains(c["mother"])
+                dn = _normdict(d)
+                try:
+                    dc = DecayChain.from_dict(d)
+                    d2 = _normdict(dc.to_dict())
+                    res = [dict_val_f(dn), dict_val_f(d2)]
+                except RuntimeError:
+                    d2 = None
+                    res = [dict_val_f(dn), {"err": "RuntimeError"}]
+                if mode == "oracle" and d2 != dn:
+                    viol.append("parser-produced single-line chain does not convert to the class form and back to the same dictionary")
             elif k == "dict":
                 d = build_dict(c["dict"])
                 try:
@@ -215,6 +254,10 @@ def main():
             cases.append({"kind": "chain", "mother": c["mother"], "decays": c["decays"]})
         for _ in range(300 if args.tier == "quick" else 3000):
             cases.append({"kind": "dict", "dict": rand_dict(rng, 3, ["A", "B", "C", "D", "e", "f"])})
+        import decgen
+        for _ in range(150 if args.tier == "quick" else 1500):
+            stmts, decn, leaves = decgen.rand_tables(rng, nmax=rng.choice([1, 2, 4, 6]), lines_max=1, empty_prob=0.0)
+            cases.append({"kind": "parser", "text": decgen.render(stmts), "stmts": stmts, "mother": decn[0]})
 
     impl = vlib.run_impl("c11.py", enc(cases))
 
@@ -235,9 +278,25 @@ def main():
             ch = coq_chain(c)
             return (f"let c := {ch} in match chain_to_dict 100 (c_decays c) (c_mother c) with None => VErr \"OutOfFuel\" "
                     f"| Some d => VList [vcdict d; vcres (chain_from_dict d)] end")
+        if k == "parser":
+            import c09
+            T = c09.coq_tables(c09.first_tables(c["stmts"]))
+            return (f"match build 60 {T} [] {cstr(c['mother'])} with Some (Some d) => "
+                    f"VList [vcdict (sort_cd d); match chain_from_dict d with COk ch => match chain_to_dict 100 (c_decays ch) (c_mother ch) with "
+                    f"Some d2 => vcdict (sort_cd d2) | None => VErr \"OutOfFuel\" end | CErr e => VErr e end] | _ => VErr \"build\" end")
         return f"vcres (chain_from_dict {coq_cdict(c['dict'])})"
 
     pre = """
+Fixpoint ins_f (x : fsp) (l : list fsp) : list fsp :=
+  let key f := match f with ChainDict.FName n => (n, false) | FSub c => (cd_mother c, true) end in
+  match l with
+  | [] => [x]
+  | y :: r => let '(a, ta) := key x in let '(b, tb) := key y in
+              if (String.ltb a b || (String.eqb a b && (negb ta || tb)))%bool then x :: l else y :: ins_f x r
+  end.
+Fixpoint sort_cd (c : cdict) : cdict :=
+  match c with CD m modes => CD m (map (fun md => match md with CM bf fs meta =>
+     CM bf (fold_right ins_f [] (map (fun f => match f with ChainDict.FName n => ChainDict.FName n | FSub c' => FSub (sort_cd c') end) fs)) meta end) modes) end.
 Definition vcmode (md : cmode) : val :=
   match md with CM bf fs meta =>
     VList [vq bf; VList (map (fun f => match f with FName n => VStr n | FSub c' => vcdict c' end) fs);
@@ -252,7 +311,7 @@ Definition vcmode (md : cmode) : val :=
                       "chains: sampled/all small shapes (<=3 decaying particles, multiplicities <=2, re-occurrence) and random chains "
                       "up to 12 decaying particles, multiplicities <=4; arbitrary chain dictionaries incl. 0 and 2 modes per particle")
     ck.cov["samples"] = [enc(cases[0]), enc(cases[len(cases) // 2]), enc(cases[-1])]
-    ck.notes["distribution"] = {k: sum(1 for c in cases if c["kind"] == k) for k in ("mode", "dd", "chain", "dict")}
+    ck.notes["distribution"] = {k: sum(1 for c in cases if c["kind"] == k) for k in ("mode", "dd", "chain", "dict", "parser")}
     ck.notes["dict_errors"] = sum(1 for c, v in zip(cases, impl) if c["kind"] == "dict" and isinstance(v, dict))
     hits = []
     if diffs or getattr(ck, "proof_failed", None):
